@@ -76,7 +76,7 @@ def ensure_makefile():
         sh('coq_makefile -f _CoqProject -o Makefile', 120, cwd=COQ)
 
 
-def build(prop):
+def build(prop, corr_file=None):
     """Regenerate facts, run make.  Returns dict(ok, proof_broken, corr_broken, log, obligations, discharged, axioms)."""
     os.makedirs(BUILD, exist_ok=True)
     res = {'proof_broken': None, 'corr_broken': None, 'log': ''}
@@ -92,7 +92,7 @@ def build(prop):
         rc, out = sh('timeout 1500 make -k -j16 2>&1 | tail -n 200', 1600, cwd=COQ)
         res['log'] += out
     props_v = 'Props/%s.v' % prop
-    corr_v = 'Corr/Corr_%s.v' % prop
+    corr_v = corr_file or 'Corr/Corr_%s.v' % prop
     failed = set(re.findall(r'File "\./([^"]+\.v)"', res['log'])) if ('Error' in res['log']) else set()
     for tgt, key in ((props_v, 'proof_broken'), (corr_v, 'corr_broken')):
         vo = os.path.join(COQ, tgt + 'o')
@@ -189,7 +189,7 @@ def run_check(mod):
         return replay(mod, args.replay)
 
     tier = 'thorough' if args.tier == 'thorough' else 'quick'
-    b = build(prop) if not args.no_build else dict(proof_broken=None, corr_broken=None, log='', **proof_census(prop, True))
+    b = build(prop, getattr(mod, 'CORR_FILE', None)) if not args.no_build else dict(proof_broken=None, corr_broken=None, log='', **proof_census(prop, True))
     bad_axioms = {t: [a for a in ax if a.split('.')[-1] not in {x.split('.')[-1] for x in ALLOWED_AXIOMS}]
                   for t, ax in b['axioms'].items()}
     bad_axioms = {t: a for t, a in bad_axioms.items() if a}
